@@ -53,6 +53,7 @@ PATH_METHODS = [
     (re.compile(r"\.is_file\(\)"), ".verif_is_file()"),
     (re.compile(r"\.is_dir\(\)"), ".verif_is_dir()"),
     (re.compile(r"\.exists\(\)"), ".verif_exists()"),
+    (re.compile(r"\.metadata\(\)"), ".verif_metadata()"),
 ]
 counts = {}
 
